@@ -11,7 +11,7 @@ COMMON_TRUSTED = [
 
 PROPS = {
     "C12": {
-        "engines": [{"name": "prefix", "n": {"quick": 2500, "thorough": 60000}, "profiles": ["debug"]}],
+        "engines": [{"name": "prefix", "n": {"quick": 2500, "thorough": 40000}, "profiles": ["debug"]}],
         "tie_lemmas": ["tie_dag_pb", "tie_sha2_256", "tie_sha2_256_size", "tie_prefix_rejects_explicit_v0", "tie_prefix_size_check"],
         "rule": "engine prefix: every byte string up to length 4 (quick) / 5 (thorough) over the alphabet "
                 "{00,01,02,12,20,55,70,7f,80,ff} through from_bytes; every code of the built-in table x v1 and CIDv0 "
@@ -51,9 +51,9 @@ PROPS = {
         "assumptions": ["the error contract at message level (skip vs close) is proved about Incoming.process_message (Props_C16) and exercised by the incoming engine"],
     },
     "C16": {
-        "engines": [{"name": "incoming", "n": {"quick": 3000, "thorough": 100000}, "profiles": ["debug"]},
-                    {"name": "stream", "n": {"quick": 1000, "thorough": 40000}, "profiles": ["debug"], "oracle": "oracle", "shard": 100},
-                    {"name": "conn", "n": {"quick": 600, "thorough": 30000}, "profiles": ["debug"], "oracle": "oracle_C16", "shard": 40, "count": ["has_bad_and_good"]}],
+        "engines": [{"name": "incoming", "n": {"quick": 3000, "thorough": 40000}, "profiles": ["debug"]},
+                    {"name": "stream", "n": {"quick": 1000, "thorough": 20000}, "profiles": ["debug"], "oracle": "oracle", "shard": 100},
+                    {"name": "conn", "n": {"quick": 600, "thorough": 15000}, "profiles": ["debug"], "oracle": "oracle_C16", "shard": 40, "count": ["has_bad_and_good"]}],
         "rule": "engine conn: ONE real ConnHandler (lib.rs SelectAll<IncomingStream>, real FramedRead + Codec + process_message) with 1-4 scripted inbound streams opened at different times, each carrying 1-4 frames cut at arbitrary points with "
                 "Pending / EOF / read errors, some frames bad (oversize announcement, bad varint, protobuf error, invalid presence CID, unparsable block prefix, truncated tail); every IncomingMessage event is attributed to its "
                 "stream; per stream the events must equal Streams.stream_out of that stream's own read events (what precedes a bad frame is delivered, nothing after it, other streams complete), and the streams alive at the end are "
@@ -66,10 +66,10 @@ PROPS = {
                         "SelectAll used and checks the per-stream projections (which Streams_proofs shows independent of the schedule once every stream is polled enough)"],
     },
     "C09": {
-        "engines": [{"name": "codec", "n": {"quick": 1200, "thorough": 40000}, "profiles": ["debug", "release"], "oracle": "oracle_C09",
+        "engines": [{"name": "codec", "n": {"quick": 1200, "thorough": 20000}, "profiles": ["debug", "release"], "oracle": "oracle_C09",
                      "known": {}, "count": []},
                     {"name": "srvsplit", "n": {"quick": 60, "thorough": 3000}, "profiles": ["debug"], "oracle": "oracle_C09"},
-                    {"name": "srvhandler", "n": {"quick": 400, "thorough": 20000}, "profiles": ["debug"], "oracle": "oracle_C09", "shard": 60}],
+                    {"name": "srvhandler", "n": {"quick": 400, "thorough": 15000}, "profiles": ["debug"], "oracle": "oracle_C09", "shard": 60}],
         "tie_lemmas": ["tie_max_message_size", "tie_limit_operand", "tie_limit_operator", "tie_varint_error_mapping", "tie_split_addend", "tie_split_operator", "tie_split_limit", "tie_split_early_return", "tie_split_shape"],
         "rule": "engine codec (debug = overflow-checked and release profile; in release every decode runs in a confined child process): "
                 "length prefixes of every varint byte length 1..11 (values around every power of two, around the 4 MiB limit, overlong / overflowing / "
@@ -83,22 +83,22 @@ PROPS = {
         "assumptions": ["64-bit usize", "outbound half (C09_outbound_split) is about the server handler model, see Props_C09.v"],
     },
     "C06": {
-        "engines": [{"name": "server", "n": {"quick": 150, "thorough": 6000}, "profiles": ["debug"], "oracle": "oracle_C06", "shard": 20}],
-        "tie_lemmas": ["tie_max_wantlist_entries"],
+        "engines": [{"name": "server", "n": {"quick": 150, "thorough": 2000}, "profiles": ["debug"], "oracle": "oracle_C06", "shard": 20}],
+        "tie_lemmas": ["tie_max_wantlist_entries", "tie_srv_wantlist_shape"],
         "rule": """engine server: the server half of Behaviour driven op by op through the public NetworkBehaviour interface (new connection, wantlist message, new blocks, disconnect, release of one store.get call, poll to Pending) with a scripted blockstore whose calls complete only when released, in any order; histories over 1-3 peers x 2-4 CIDs (updates and full wantlists with wants, cancels, duplicates, cancel+want of one CID in one message, undecodable CIDs; hits, misses, failures, unknown call numbers; blocks arriving between registration and completion) driven to quiescence at the end, plus wantlists of 0..1300 (quick) / 5000 (thorough) entries, full and update. After every op the outputs (store calls started, QueueOutgoingMessages per peer) and a snapshot of the server state are compared with the model; the oracle folds the Bitswap reference view over the op history and the implementation's outputs only. Every history is non-trivial; distinct = distinct op lists.""",
         "assumptions": ["32 <= S <= 255", "A-STORE (healthy blockstore) is not needed by the theorems: store answers are inputs",
                         "the reference view contains the 1024 cap of C13 (C06_cap_refuted shows a want beyond it is dropped)",
                         "the server handler's delivery of the queued blocks to the wire is C09-outbound/C14 territory, not C06"],
     },
     "C07": {
-        "engines": [{"name": "server", "n": {"quick": 150, "thorough": 6000}, "profiles": ["debug"], "oracle": "oracle_C07", "shard": 20}],
-        "tie_lemmas": ["tie_max_wantlist_entries"],
+        "engines": [{"name": "server", "n": {"quick": 150, "thorough": 2000}, "profiles": ["debug"], "oracle": "oracle_C07", "shard": 20}],
+        "tie_lemmas": ["tie_max_wantlist_entries", "tie_srv_wantlist_shape"],
         "rule": """engine server: the server half of Behaviour driven op by op through the public NetworkBehaviour interface (new connection, wantlist message, new blocks, disconnect, release of one store.get call, poll to Pending) with a scripted blockstore whose calls complete only when released, in any order; histories over 1-3 peers x 2-4 CIDs (updates and full wantlists with wants, cancels, duplicates, cancel+want of one CID in one message, undecodable CIDs; hits, misses, failures, unknown call numbers; blocks arriving between registration and completion) driven to quiescence at the end, plus wantlists of 0..1300 (quick) / 5000 (thorough) entries, full and update. After every op the outputs (store calls started, QueueOutgoingMessages per peer) and a snapshot of the server state are compared with the model; the oracle folds the Bitswap reference view over the op history and the implementation's outputs only. Every history is non-trivial; distinct = distinct op lists.""",
         "assumptions": ["32 <= S <= 255"],
     },
     "C10": {
-        "engines": [{"name": "codec", "n": {"quick": 1200, "thorough": 40000}, "profiles": ["debug", "release"], "oracle": "oracle_C10"},
-                    {"name": "stream", "n": {"quick": 1200, "thorough": 40000}, "profiles": ["debug"], "oracle": "oracle_C10", "shard": 100, "count": ["known_F2"]}],
+        "engines": [{"name": "codec", "n": {"quick": 1200, "thorough": 20000}, "profiles": ["debug", "release"], "oracle": "oracle_C10"},
+                    {"name": "stream", "n": {"quick": 1200, "thorough": 20000}, "profiles": ["debug"], "oracle": "oracle_C10", "shard": 100, "count": ["known_F2"]}],
         "rule": "engine codec (debug = overflow-checked and release profile; in release every decode runs in a confined child process): "
                 "length prefixes of every varint byte length 1..11 (values around every power of two, around the 4 MiB limit, overlong / overflowing / "
                 "non-minimal encodings) followed by 0, 1, 3 and 40 payload bytes; all frames of <= 3 (quick) / 4 (thorough) bytes over a 14-byte boundary alphabet; "
@@ -109,7 +109,7 @@ PROPS = {
                         "engine stream: the real IncomingStream (FramedRead<_, Codec> + process_message) over a scripted reader: 1-4 encoded messages, sometimes with a bad frame (corrupted byte, oversize announcement, bad varint, invalid presence CID) or a truncated tail, cut into arbitrary read chunks with Pending wake-ups, ended by EOF / an error / nothing; the same bytes are also fed as one read and the delivered messages must agree (outside the known class F2, where the parser reads beyond its frame)"],
     },
     "C11": {
-        "engines": [{"name": "codec", "n": {"quick": 1200, "thorough": 40000}, "profiles": ["debug", "release"], "oracle": "oracle_C11", "count": ["in_class_case"]}],
+        "engines": [{"name": "codec", "n": {"quick": 1200, "thorough": 20000}, "profiles": ["debug", "release"], "oracle": "oracle_C11", "count": ["in_class_case"]}],
         "tie_lemmas": ["tie_reader_tables", "tie_writer_tables", "tie_tags_conform", "tie_enums"],
         "rule": "engine codec (debug = overflow-checked and release profile; in release every decode runs in a confined child process): "
                 "length prefixes of every varint byte length 1..11 (values around every power of two, around the 4 MiB limit, overlong / overflowing / "
@@ -122,57 +122,59 @@ PROPS = {
                         "quick-protobuf silently truncates outside it"],
     },
     "C03": {
-        "engines": [{"name": "client", "n": {"quick": 600, "thorough": 30000}, "profiles": ["debug"], "oracle": "oracle_C03", "shard": 15}],
+        "engines": [{"name": "client", "n": {"quick": 600, "thorough": 12000}, "profiles": ["debug"], "oracle": "oracle_C03", "shard": 15}],
         "rule": """engine client: the client half of Behaviour driven op by op (get incl. unconvertible CIDs, cancel of issued and foreign ids, connections opened/closed (via ConnectionClosed and via ClientClosingConnection), incoming client messages with presences and blocks, sending-state reports (protocol-conforming, late, from other connections), release of scripted blockstore get/put calls with hit / miss / failure in any order, virtual-clock advances around 1 s / 5 s / 30 s, ClientBehaviour::poll to Pending, get_new_blocks) over 1-3 peers x <= 3 connections x 2-4 CIDs; after every op the outputs and a full snapshot of the client state are compared with the model. The oracles are folds over the op history and the implementation's outputs/snapshots only. Every history is non-trivial; distinct = distinct op lists.""",
         "assumptions": ["u64 next_query_id / revision overflow ignored (2^64 calls)", "hash-map iteration order taken as an input (connection choice) or compared as multisets",
                         "a cancel after the answer reached the node (its event is already queued) does not retract the event: the property speaks of queries cancelled before"],
     },
     "C01": {
-        "engines": [{"name": "incoming", "n": {"quick": 2000, "thorough": 60000}, "profiles": ["debug"], "oracle": "oracle"},
-                    {"name": "client", "n": {"quick": 500, "thorough": 30000}, "profiles": ["debug"], "oracle": "oracle_C01", "shard": 15},
-                    {"name": "node", "n": {"quick": 300, "thorough": 20000}, "profiles": ["debug"], "oracle": "oracle_C01", "shard": 25}],
+        "engines": [{"name": "incoming", "n": {"quick": 2000, "thorough": 40000}, "profiles": ["debug"], "oracle": "oracle"},
+                    {"name": "client", "n": {"quick": 500, "thorough": 12000}, "profiles": ["debug"], "oracle": "oracle_C01", "shard": 15},
+                    {"name": "node", "n": {"quick": 300, "thorough": 8000}, "profiles": ["debug"], "oracle": "oracle_C01", "shard": 25}],
+        "tie_lemmas": ["tie_lib_glue"],
         "rule": "engine node: one complete Behaviour (client + server + lib.rs glue) behind the real process_message with a healthy scripted blockstore, against Node.v; oracle: every block in the store was put by the application or hashes to its CID, every response carries data hashing to its query's CID. engine incoming: see C16 (every accepted block must be keyed by the CID rebuilt from its prefix and the table's digest of its bytes). engine client: the client half of Behaviour driven op by op (get incl. unconvertible CIDs, cancel of issued and foreign ids, connections opened/closed (via ConnectionClosed and via ClientClosingConnection), incoming client messages with presences and blocks, sending-state reports (protocol-conforming, late, from other connections), release of scripted blockstore get/put calls with hit / miss / failure in any order, virtual-clock advances around 1 s / 5 s / 30 s, ClientBehaviour::poll to Pending, get_new_blocks) over 1-3 peers x <= 3 connections x 2-4 CIDs; after every op the outputs and a full snapshot of the client state are compared with the model. The oracles are folds over the op history and the implementation's outputs/snapshots only. Every history is non-trivial; distinct = distinct op lists.",
         "assumptions": ["A-HASH: the hash oracle of the model is the table of answers the harness obtained from the real MultihasherTable",
                         "the hand-over of stored blocks to the server half (lib.rs poll) is exercised by the node engine; in the client engine get_new_blocks is observed directly"],
     },
     "C17": {
-        "engines": [{"name": "wantlist", "n": {"quick": 1200, "thorough": 60000}, "profiles": ["debug"], "oracle": "oracle_C17", "shard": 300}],
+        "engines": [{"name": "wantlist", "n": {"quick": 1200, "thorough": 30000}, "profiles": ["debug"], "oracle": "oracle_C17", "shard": 300}],
         "tie_lemmas": ["tie_wl_full_table", "tie_wl_update_table", "tie_wl_update_wildcard", "tie_entry_constructors", "tie_default_send_dont_have"],
         "rule": """engine wantlist: raw API histories on one Wantlist + one WantlistState: every sequence of <= 4 (quick) / 5 (thorough) client-level events over 1 CID and <= 3 / 4 over 2 CIDs ({insert(+wanted_again), remove, have, dont_have, block-from-peer, gen-update, gen-full}), random histories up to length 80 over 2-4 CIDs (2/3 following the client's discipline, 1/3 arbitrary API calls, correspondence only), both values of send_dont_have; generated entries are compared as sets of full protobuf Entry values. Non-trivial = more than one event.""",
         "assumptions": ["the builder option reaches the wantlist unchanged: exercised by the client engine (both settings) under C04/C03"],
     },
     "C04": {
-        "engines": [{"name": "wantlist", "n": {"quick": 1200, "thorough": 60000}, "profiles": ["debug"], "oracle": "oracle_C04", "shard": 300, "count": ["is_disciplined"]},
-                    {"name": "client", "n": {"quick": 500, "thorough": 30000}, "profiles": ["debug"], "oracle": "oracle_C04", "shard": 15}],
-        "tie_lemmas": ["tie_wl_full_table", "tie_wl_update_table", "tie_wl_update_wildcard", "tie_entry_constructors"],
+        "engines": [{"name": "wantlist", "n": {"quick": 1200, "thorough": 30000}, "profiles": ["debug"], "oracle": "oracle_C04", "shard": 300, "count": ["is_disciplined"]},
+                    {"name": "client", "n": {"quick": 500, "thorough": 12000}, "profiles": ["debug"], "oracle": "oracle_C04", "shard": 15}],
+        "tie_lemmas": ["tie_wl_full_table", "tie_wl_update_table", "tie_wl_update_wildcard", "tie_entry_constructors", "tie_uh_gate", "tie_uh_after", "tie_refresh_timer"],
         "rule": """engine wantlist: raw API histories on one Wantlist + one WantlistState: every sequence of <= 4 (quick) / 5 (thorough) client-level events over 1 CID and <= 3 / 4 over 2 CIDs ({insert(+wanted_again), remove, have, dont_have, block-from-peer, gen-update, gen-full}), random histories up to length 80 over 2-4 CIDs (2/3 following the client's discipline, 1/3 arbitrary API calls, correspondence only), both values of send_dont_have; generated entries are compared as sets of full protobuf Entry values. Non-trivial = more than one event. engine client: the client half of Behaviour driven op by op (get incl. unconvertible CIDs, cancel of issued and foreign ids, connections opened/closed (via ConnectionClosed and via ClientClosingConnection), incoming client messages with presences and blocks, sending-state reports (protocol-conforming, late, from other connections), release of scripted blockstore get/put calls with hit / miss / failure in any order, virtual-clock advances around 1 s / 5 s / 30 s, ClientBehaviour::poll to Pending, get_new_blocks) over 1-3 peers x <= 3 connections x 2-4 CIDs; after every op the outputs and a full snapshot of the client state are compared with the model. The oracles are folds over the op history and the implementation's outputs/snapshots only. Every history is non-trivial; distinct = distinct op lists.""",
         "assumptions": ["'solicited' is read with the refinement that wanted_again forces (C04_full_exact_refuted / _partial): a CID wanted anew after this peer delivered it has to be told again",
                         "a generated wantlist is taken as delivered; when that is in doubt the next one is full (C05) and overwrites the view"],
     },
     "C15": {
-        "engines": [{"name": "client", "n": {"quick": 500, "thorough": 30000}, "profiles": ["debug"], "oracle": "oracle_C15", "shard": 15},
-                    {"name": "server", "n": {"quick": 100, "thorough": 4000}, "profiles": ["debug"], "oracle": "oracle_C13", "shard": 20},
-                    {"name": "handler", "n": {"quick": 800, "thorough": 40000}, "profiles": ["debug"], "oracle": "oracle_C05", "shard": 60},
-                    {"name": "net", "n": {"quick": 2500, "thorough": 60000}, "profiles": ["debug"], "oracle": "oracle_C02", "shard": 200, "distinct_io": True},
-                    {"name": "node", "n": {"quick": 500, "thorough": 20000}, "profiles": ["debug"], "oracle": "oracle_C15", "shard": 25}],
+        "engines": [{"name": "client", "n": {"quick": 500, "thorough": 12000}, "profiles": ["debug"], "oracle": "oracle_C15", "shard": 15},
+                    {"name": "server", "n": {"quick": 100, "thorough": 2000}, "profiles": ["debug"], "oracle": "oracle_C13", "shard": 20},
+                    {"name": "handler", "n": {"quick": 800, "thorough": 30000}, "profiles": ["debug"], "oracle": "oracle_C05", "shard": 60},
+                    {"name": "net", "n": {"quick": 2500, "thorough": 30000}, "profiles": ["debug"], "oracle": "oracle_C02", "shard": 200, "distinct_io": True},
+                    {"name": "node", "n": {"quick": 500, "thorough": 8000}, "profiles": ["debug"], "oracle": "oracle_C15", "shard": 25}],
+        "tie_lemmas": ["tie_uh_gate", "tie_uh_after", "tie_refresh_timer", "tie_lib_glue"],
         "rule": """engine node: one complete Behaviour (both halves + lib.rs glue) with up to three connections per peer opened and closed in any order, reports from any of them, against Node.v's steps (connection choice and "was it the last connection" taken from the implementation); oracle: after every op the server half holds a want set for exactly the peers with an open connection and the client half only for such peers. engine handler: see C05 (a closing connection must report the outcome of a transmission it held, otherwise the peer is not served through its remaining connections). engine net: see C02 (up to three connections per pair, opened and closed at any scheduling step, also while a substream negotiation is pending). engine client: the client half of Behaviour driven op by op (get incl. unconvertible CIDs, cancel of issued and foreign ids, connections opened/closed (via ConnectionClosed and via ClientClosingConnection), incoming client messages with presences and blocks, sending-state reports (protocol-conforming, late, from other connections), release of scripted blockstore get/put calls with hit / miss / failure in any order, virtual-clock advances around 1 s / 5 s / 30 s, ClientBehaviour::poll to Pending, get_new_blocks) over 1-3 peers x <= 3 connections x 2-4 CIDs; after every op the outputs and a full snapshot of the client state are compared with the model. The oracles are folds over the op history and the implementation's outputs/snapshots only. Every history is non-trivial; distinct = distinct op lists. engine server: see C06 (SNewConn on a connected peer must change nothing: compared through the per-op state snapshot).""",
         "assumptions": ["A-SWARM: libp2p-swarm reports connections and delivers NotifyHandler::One as documented; both dial directions create the same handler (lib.rs)"],
     },
     "C13": {
-        "engines": [{"name": "server", "n": {"quick": 120, "thorough": 5000}, "profiles": ["debug"], "oracle": "oracle_C13", "shard": 20},
-                    {"name": "client", "n": {"quick": 500, "thorough": 30000}, "profiles": ["debug"], "oracle": "oracle_C13", "shard": 15}],
-        "tie_lemmas": ["tie_max_wantlist_entries"],
+        "engines": [{"name": "server", "n": {"quick": 120, "thorough": 2000}, "profiles": ["debug"], "oracle": "oracle_C13", "shard": 20},
+                    {"name": "client", "n": {"quick": 500, "thorough": 12000}, "profiles": ["debug"], "oracle": "oracle_C13", "shard": 15}],
+        "tie_lemmas": ["tie_max_wantlist_entries", "tie_srv_wantlist_shape"],
         "rule": """engine server: see C06, incl. wantlists of 0..1300 (quick) / 5000 (thorough) entries, full and update, and disconnects. engine client: the client half of Behaviour driven op by op (get incl. unconvertible CIDs, cancel of issued and foreign ids, connections opened/closed (via ConnectionClosed and via ClientClosingConnection), incoming client messages with presences and blocks, sending-state reports (protocol-conforming, late, from other connections), release of scripted blockstore get/put calls with hit / miss / failure in any order, virtual-clock advances around 1 s / 5 s / 30 s, ClientBehaviour::poll to Pending, get_new_blocks) over 1-3 peers x <= 3 connections x 2-4 CIDs; after every op the outputs and a full snapshot of the client state are compared with the model. The oracles are folds over the op history and the implementation's outputs/snapshots only. Every history is non-trivial; distinct = distinct op lists.""",
         "assumptions": ["server store-lookup tasks outlive a disconnect until their calls complete (bounded by the messages received, not by connected peers): observation, see DESIGN.md"],
     },
     "C08": {
-        "engines": [{"name": "codec", "n": {"quick": 1500, "thorough": 60000}, "profiles": ["debug", "release"], "oracle": "oracle_C08", "known": {"F2": "known_F2"}},
-                    {"name": "prefix", "n": {"quick": 1500, "thorough": 40000}, "profiles": ["debug", "release"], "oracle": "oracle"},
-                    {"name": "incoming", "n": {"quick": 1500, "thorough": 60000}, "profiles": ["debug", "release"], "oracle": "oracle"},
-                    {"name": "client", "n": {"quick": 300, "thorough": 20000}, "profiles": ["debug", "release"], "oracle": "oracle_C03", "shard": 15},
-                    {"name": "server", "n": {"quick": 60, "thorough": 3000}, "profiles": ["debug", "release"], "oracle": "oracle_C07", "shard": 20},
-                    {"name": "handler", "n": {"quick": 400, "thorough": 20000}, "profiles": ["debug"], "oracle": "oracle_C14", "shard": 50},
-                    {"name": "node", "n": {"quick": 300, "thorough": 20000}, "profiles": ["debug", "release"], "oracle": "oracle_C08", "shard": 25}],
+        "engines": [{"name": "codec", "n": {"quick": 1500, "thorough": 20000}, "profiles": ["debug", "release"], "oracle": "oracle_C08", "known": {"F2": "known_F2"}},
+                    {"name": "prefix", "n": {"quick": 1500, "thorough": 20000}, "profiles": ["debug", "release"], "oracle": "oracle"},
+                    {"name": "incoming", "n": {"quick": 1500, "thorough": 20000}, "profiles": ["debug", "release"], "oracle": "oracle"},
+                    {"name": "client", "n": {"quick": 300, "thorough": 5000}, "profiles": ["debug", "release"], "oracle": "oracle_C03", "shard": 15},
+                    {"name": "server", "n": {"quick": 60, "thorough": 800}, "profiles": ["debug", "release"], "oracle": "oracle_C07", "shard": 20},
+                    {"name": "handler", "n": {"quick": 400, "thorough": 10000}, "profiles": ["debug"], "oracle": "oracle_C14", "shard": 50},
+                    {"name": "node", "n": {"quick": 300, "thorough": 4000}, "profiles": ["debug", "release"], "oracle": "oracle_C08", "shard": 25}],
         "rule": "engines codec (mutated / structured / exhaustive short frames, prefixes of every varint length, non-canonical encodings), prefix (all strings of <= 4/5 "
                 "bytes over a 10-byte boundary alphabet, structured prefixes), incoming (adversarial message values), client and server (behaviours under arbitrary "
                 "op sequences), handler (client handler under arbitrary scripted I/O) — in the overflow-checked (debug) AND the release profile; in release every decode of a "
@@ -184,9 +186,9 @@ PROPS = {
                         "known finding F2 (class codec_overrun) is excluded and reported as KNOWN-FINDING"],
     },
     "C05": {
-        "engines": [{"name": "client", "n": {"quick": 600, "thorough": 30000}, "profiles": ["debug"], "oracle": "oracle_C05", "shard": 15},
-                    {"name": "handler", "n": {"quick": 1500, "thorough": 60000}, "profiles": ["debug"], "oracle": "oracle_C05", "shard": 60, "count": ["is_disciplined"]}],
-        "tie_lemmas": ["tie_send_full_interval", "tie_receive_request_timeout", "tie_start_sending_timeout", "tie_peer_initial_send_full"],
+        "engines": [{"name": "client", "n": {"quick": 600, "thorough": 12000}, "profiles": ["debug"], "oracle": "oracle_C05", "shard": 15},
+                    {"name": "handler", "n": {"quick": 1500, "thorough": 30000}, "profiles": ["debug"], "oracle": "oracle_C05", "shard": 60, "count": ["is_disciplined"]}],
+        "tie_lemmas": ["tie_send_full_interval", "tie_receive_request_timeout", "tie_start_sending_timeout", "tie_peer_initial_send_full", "tie_uh_gate", "tie_uh_after", "tie_refresh_timer"],
         "rule": "engine client: see C03 (faults: Failed reports from the sending connection, reports withheld past 1 s of virtual time, connections closed in every sending state, reports from other "
                 "connections; oracle: first wantlist of a session is full, the first wantlist after a fault is full and avoids the faulty connection). engine handler: the client half of the real ConnHandler "
                 "driven through the ConnectionHandler trait over a scripted substream (every poll_write / poll_flush / poll_close outcome: accept n bytes, zero, error, pending), substream allocation failures, "
@@ -197,9 +199,10 @@ PROPS = {
                         "a request unacknowledged for 1 s on the only connection makes the client forget the peer until it reconnects (design of PeerState::established_connections): 'sent over a remaining connection if there is one'"],
     },
     "C14": {
-        "engines": [{"name": "handler", "n": {"quick": 1500, "thorough": 60000}, "profiles": ["debug"], "oracle": "oracle_C14", "shard": 60, "count": ["is_disciplined"]},
-                    {"name": "client", "n": {"quick": 500, "thorough": 30000}, "profiles": ["debug"], "oracle": "oracle_C14", "shard": 15},
-                    {"name": "net", "n": {"quick": 2500, "thorough": 60000}, "profiles": ["debug"], "oracle": "oracle_C14", "shard": 200, "distinct_io": True}],
+        "engines": [{"name": "handler", "n": {"quick": 1500, "thorough": 30000}, "profiles": ["debug"], "oracle": "oracle_C14", "shard": 60, "count": ["is_disciplined"]},
+                    {"name": "client", "n": {"quick": 500, "thorough": 12000}, "profiles": ["debug"], "oracle": "oracle_C14", "shard": 15},
+                    {"name": "net", "n": {"quick": 2500, "thorough": 30000}, "profiles": ["debug"], "oracle": "oracle_C14", "shard": 200, "distinct_io": True}],
+        "tie_lemmas": ["tie_uh_gate", "tie_uh_after", "tie_refresh_timer"],
         "rule": "engine handler: see C05 (oracle: the bytes accepted by each stream are a prefix of the frame of exactly one accepted wantlist, a stream never carries more than one frame, Ready is reported iff some stream "
                 "was written the complete frame). engine client: see C03 (oracle: no SendWantlist for a peer while one is outstanding). engine net: 2-4 complete nodes (real Behaviour + real ConnHandlers + real codec) wired by the "
                 "harness's mini swarm over in-memory pipes with arbitrary read chunking, schedules and blockstore latencies; histories of connect / disconnect / get / cancel / local put / evict; after settle + two refresh periods the "
@@ -207,10 +210,11 @@ PROPS = {
         "assumptions": ["partial: A-SWARM / A-STREAM — libp2p-swarm's event plumbing and yamux streams are replaced by the harness's mini swarm and pipes (ordered, lossless until closed); real swarms are not exercised"],
     },
     "C02": {
-        "engines": [{"name": "net", "n": {"quick": 3000, "thorough": 80000}, "profiles": ["debug"], "oracle": "oracle_C02", "shard": 200, "distinct_io": True},
-                    {"name": "node", "n": {"quick": 400, "thorough": 20000}, "profiles": ["debug"], "oracle": "oracle_C02", "shard": 25},
-                    {"name": "server", "n": {"quick": 80, "thorough": 3000}, "profiles": ["debug"], "oracle": "oracle_C06", "shard": 20},
-                    {"name": "client", "n": {"quick": 300, "thorough": 20000}, "profiles": ["debug"], "oracle": "oracle_C04", "shard": 15}],
+        "engines": [{"name": "net", "n": {"quick": 3000, "thorough": 30000}, "profiles": ["debug"], "oracle": "oracle_C02", "shard": 200, "distinct_io": True},
+                    {"name": "node", "n": {"quick": 400, "thorough": 8000}, "profiles": ["debug"], "oracle": "oracle_C02", "shard": 25},
+                    {"name": "server", "n": {"quick": 80, "thorough": 2000}, "profiles": ["debug"], "oracle": "oracle_C06", "shard": 20},
+                    {"name": "client", "n": {"quick": 300, "thorough": 12000}, "profiles": ["debug"], "oracle": "oracle_C04", "shard": 15}],
+        "tie_lemmas": ["tie_lib_glue", "tie_uh_gate", "tie_uh_after", "tie_refresh_timer"],
         "rule": "engine net: 2-4 complete nodes (real Behaviour + real ConnHandlers + real codec) wired by the harness's mini swarm over in-memory pipes; random histories of connect (up to 3 connections per pair) / "
                 "disconnect / get / cancel / local put / evict / clock advances, interleaved with harness-chosen scheduling steps (which behaviour or handler is polled, how many bytes a read returns, which blockstore call "
                 "completes next); then the fault-free continuation: settle, two refresh periods, settle. Oracle: every uncancelled query whose block is held by a node that is connected (same protocol name) at the end got "
